@@ -166,24 +166,60 @@ func sessionOf(s subject) *sessions.SessionState {
 	return &sessions.SessionState{Email: s.email, AccessToken: s.access, RefreshToken: s.refresh}
 }
 
-func stamp(s *sessions.SessionState, id int) {
-	s.AccessToken = fmt.Sprintf("%s+exec%d", strings.SplitN(s.AccessToken, "+", 2)[0], id)
-	s.RefreshDeadline = time.Unix(int64(1000000+id), 0)
-	s.ValidDeadline = time.Unix(int64(2000000+id), 0)
-	s.Groups = []string{fmt.Sprintf("exec%d", id)}
-	s.GracePeriodStart = time.Unix(int64(3000000+id), 0)
+// The fake inner providers write into the session exactly the fields the real ones write (a repair that hands the
+// leader's update to the merged callers field by field is as right as one that copies the whole session):
+//
+//	kind "auth-refresh"   RefreshSessionIfNeeded of sso-auth's providers: AccessToken, RefreshDeadline
+//	kind "proxy-refresh"  SSOProvider.RefreshSession: AccessToken, RefreshDeadline, Groups, GracePeriodStart
+//	kind "proxy-validate" SSOProvider.ValidateSessionState: ValidDeadline, Groups, GracePeriodStart
+func stamp(s *sessions.SessionState, id int, kind string) {
+	switch kind {
+	case "auth-refresh":
+		s.AccessToken = fmt.Sprintf("%s+exec%d", strings.SplitN(s.AccessToken, "+", 2)[0], id)
+		s.RefreshDeadline = time.Unix(int64(1000000+id), 0)
+	case "proxy-refresh":
+		s.AccessToken = fmt.Sprintf("%s+exec%d", strings.SplitN(s.AccessToken, "+", 2)[0], id)
+		s.RefreshDeadline = time.Unix(int64(1000000+id), 0)
+		s.Groups = []string{fmt.Sprintf("exec%d", id)}
+		s.GracePeriodStart = time.Time{}
+	case "proxy-validate":
+		s.ValidDeadline = time.Unix(int64(2000000+id), 0)
+		s.Groups = []string{fmt.Sprintf("exec%d", id)}
+		s.GracePeriodStart = time.Time{}
+	default:
+		panic("stamp: " + kind)
+	}
 }
 
-func stampOf(s *sessions.SessionState) int {
-	var id int
+// stampOf reads the execution whose update the session carries (0 = none): every field of the kind must agree,
+// otherwise a value that matches nothing is reported.
+func stampOf(s *sessions.SessionState, kind string) int {
+	var fromTok, fromRef, fromVal, fromGrp int
 	if i := strings.Index(s.AccessToken, "+exec"); i >= 0 {
-		fmt.Sscanf(s.AccessToken[i:], "+exec%d", &id)
+		fmt.Sscanf(s.AccessToken[i:], "+exec%d", &fromTok)
 	}
-	// all stamped fields must agree, otherwise report a value that matches nothing
-	if id != 0 && (s.ValidDeadline.Unix() != int64(2000000+id) || len(s.Groups) != 1 || s.Groups[0] != fmt.Sprintf("exec%d", id)) {
-		return -2
+	if u := s.RefreshDeadline.Unix(); u > 1000000 && u < 2000000 {
+		fromRef = int(u - 1000000)
 	}
-	return id
+	if u := s.ValidDeadline.Unix(); u > 2000000 && u < 3000000 {
+		fromVal = int(u - 2000000)
+	}
+	fromGrp = execIDOfGroups(s.Groups)
+	var ids []int
+	switch kind {
+	case "auth-refresh":
+		ids = []int{fromTok, fromRef}
+	case "proxy-refresh":
+		ids = []int{fromTok, fromRef, fromGrp}
+	case "proxy-validate":
+		ids = []int{fromVal, fromGrp}
+	}
+	for _, x := range ids[1:] {
+		if x != ids[0] {
+			return -2
+		}
+	}
+	return ids[0]
 }
 
 func execIDOfGroups(g []string) int {
@@ -215,7 +251,7 @@ func (p *proxyInner) UserGroups(email string, groups []string, tok string) ([]st
 func (p *proxyInner) ValidateSessionState(s *sessions.SessionState, g []string) bool {
 	id, ok := p.r.exec()
 	if ok {
-		stamp(s, id)
+		stamp(s, id, "proxy-validate")
 	}
 	return ok
 }
@@ -224,7 +260,7 @@ func (p *proxyInner) RefreshSession(s *sessions.SessionState, g []string) (bool,
 	if !ok {
 		return false, fmt.Errorf("fail-%d", id)
 	}
-	stamp(s, id)
+	stamp(s, id, "proxy-refresh")
 	return true, nil
 }
 func (p *proxyInner) GetSignInURL(*url.URL, string) *url.URL { return &url.URL{} }
@@ -252,16 +288,16 @@ func (t *proxyTarget) call(ep, subj string, variant int) result {
 	case "ValidateSessionState":
 		ss := sessionOf(s)
 		ok := t.p.ValidateSessionState(ss, groupsOf(s, variant))
-		return result{val: 0, ok: ok, count: -1, sess: stampOf(ss)}
+		return result{val: 0, ok: ok, count: -1, sess: stampOf(ss, "proxy-validate")}
 	case "RefreshSession":
 		ss := sessionOf(s)
 		ok, err := t.p.RefreshSession(ss, groupsOf(s, variant))
 		if err != nil {
 			var id int
 			fmt.Sscanf(err.Error(), "fail-%d", &id)
-			return result{val: id, ok: false, count: -1, sess: stampOf(ss)}
+			return result{val: id, ok: false, count: -1, sess: stampOf(ss, "proxy-refresh")}
 		}
-		return result{val: 0, ok: ok, count: -1, sess: stampOf(ss)}
+		return result{val: 0, ok: ok, count: -1, sess: stampOf(ss, "proxy-refresh")}
 	}
 	panic("unknown method " + t.methods[ep])
 }
@@ -286,7 +322,7 @@ func (p *authInner) RefreshSessionIfNeeded(s *sessions.SessionState) (bool, erro
 	if !ok {
 		return false, fmt.Errorf("fail-%d", id)
 	}
-	stamp(s, id)
+	stamp(s, id, "auth-refresh")
 	return true, nil
 }
 func (p *authInner) ValidateGroupMembership(email string, g []string, tok string) ([]string, error) {
@@ -334,9 +370,9 @@ func (t *authTarget) call(ep, subj string, variant int) result {
 		ss := sessionOf(s)
 		ok, err := t.p.RefreshSessionIfNeeded(ss)
 		if err != nil {
-			return result{val: failID(err), ok: false, count: -1, sess: stampOf(ss)}
+			return result{val: failID(err), ok: false, count: -1, sess: stampOf(ss, "auth-refresh")}
 		}
-		return result{val: 0, ok: ok, count: -1, sess: stampOf(ss)}
+		return result{val: 0, ok: ok, count: -1, sess: stampOf(ss, "auth-refresh")}
 	case "ValidateGroupMembership":
 		g, err := t.p.ValidateGroupMembership(s.email, groupsOf(s, variant), s.access)
 		if err != nil {
